@@ -42,7 +42,7 @@ fn learn_fp(q: usize, r: usize, bh: &CtlBH, key: u64) -> u64 {
             return ((i as u64) << r) | s.3;
         }
     }
-    panic!("tool error: probe insert left no occupied slot");
+    probe_failed("probe insert left no occupied slot");
 }
 
 pub fn build_universe(cfg: &Value) -> Universe {
@@ -74,7 +74,7 @@ pub fn build_universe(cfg: &Value) -> Universe {
             }
         }
         if found < (nfp as usize) * reps {
-            panic!("tool error: key search did not realise all fingerprints");
+            probe_failed("key search did not realise all fingerprints");
         }
     }
     let fp: Vec<u64> = keys.iter().map(|&k| learn_fp(q, r, &bh, k)).collect();
